@@ -1001,6 +1001,25 @@ Proof.
     + cbn [map concat aprefixed_bytes]. rewrite IH2. rewrite <- app_assoc. rewrite <- Hdb. symmetry. exact Hd.
 Qed.
 
+Lemma aiter_rbytes_spec' size rem fuel idx d :
+  N.of_nat (length d) = size * rem -> (N.to_nat rem <= fuel)%nat ->
+  map aobj_index (aiter_rbytes fuel size rem idx d) = arange_indices idx (N.to_nat rem)
+  /\ concat (map (fun ob => match ob with ObBytes _ b => b | _ => [] end) (aiter_rbytes fuel size rem idx d)) = d
+  /\ length (aiter_rbytes fuel size rem idx d) = N.to_nat rem.
+Proof.
+  intros H1 H2. pose proof (aiter_rbytes_spec size (N.to_nat rem) fuel idx d) as H.
+  rewrite N2Nat.id in H. apply H; [assumption|lia].
+Qed.
+
+Lemma aiter_pbytes_spec' psize size rem fuel d : abytes_ok d ->
+  N.of_nat (length d) = (size + psize) * rem -> (N.to_nat rem <= fuel)%nat ->
+  length (aiter_pbytes fuel psize size rem d) = N.to_nat rem
+  /\ concat (map (aprefixed_bytes psize []) (aiter_pbytes fuel psize size rem d)) = d.
+Proof.
+  intros Hb H1 H2. pose proof (aiter_pbytes_spec psize size (N.to_nat rem) fuel d Hb) as H.
+  rewrite N2Nat.id in H. apply H; [assumption|lia].
+Qed.
+
 Lemma askipn_nth (d : list N) : forall n, (n < length d)%nat -> skipn n d = nth n d 0 :: skipn (S n) d.
 Proof.
   induction d as [|x d IH]; intros n H; [cbn in H; lia|].
@@ -1208,11 +1227,10 @@ Proof.
         * rewrite map_map. etransitivity; [|exact S2]. f_equal.
           apply (amap_ext_Forall (ais_fixed true)); [apply aiter_range_shape|].
           intros [i bb|i vv|[i|] xs|i ddd] Hsh; try contradiction; try discriminate.
-          cbn [aobject_bytes snd afixed_bytes oh_g oh_v]. rewrite Hf, Hww. reflexivity.
+          unfold amk; cbn [aobject_bytes snd afixed_bytes oh_g oh_v]. rewrite Hf, Hww. reflexivity.
       + intros s c E. inversion E; subst. lia.
     - destruct Hr as [Hz [dd [Hp Hn]]]. subst p. aunf. split.
-      + replace (b - a + 1) with (N.of_nat (N.to_nat (b - a + 1))) at 2 4 by lia.
-        destruct (aiter_rbytes_spec v (N.to_nat (b - a + 1)) (N.to_nat (b - a + 1)) a dd) as [S1 [S2 _]]; try lia.
+      + destruct (aiter_rbytes_spec' v (b - a + 1) (N.to_nat (b - a + 1)) a dd) as [S1 [S2 _]]; try lia.
         split.
         * rewrite map_map. rewrite <- S1. apply map_ext. intros [i bb|i vv|i xs|i ddd]; reflexivity.
         * rewrite map_map. etransitivity; [|exact S2]. f_equal.
@@ -1235,7 +1253,7 @@ Proof.
       + rewrite map_map. etransitivity; [|exact S3]. f_equal.
         apply (amap_ext_Forall (ais_fixed false)); [apply aiter_count_shape|].
         intros [i bb|i vv|[i|] xs|i ddd] Hsh; try contradiction; try discriminate.
-        cbn [aobject_bytes snd afixed_bytes oh_g oh_v]. rewrite Hf, Hww. reflexivity. }
+        unfold amk; cbn [aobject_bytes snd afixed_bytes oh_g oh_v]. rewrite Hf, Hww. reflexivity. }
   assert (Hpref : forall ps c, aprefixed_wf o g v ps c p -> aiterate_spec (amk g v d p) /\ apayload_range p = None).
   { intros ps c Hc. unfold aprefixed_wf in Hc. 
     destruct (aqkind qt_prefix g v) as [[| | | | | |]|]; try contradiction.
@@ -1248,10 +1266,9 @@ Proof.
       + rewrite map_map. etransitivity; [|exact S2]. f_equal.
         apply (amap_ext_Forall (ais_fixed true)); [apply aiter_prefix_shape|].
         intros [i bb|i vv|[i|] xs|i ddd] Hsh; try contradiction; try discriminate.
-        unfold aentry_bytes. cbn [aobject_bytes fst snd aprefixed_bytes oh_g oh_v]. rewrite Hf, Hww. reflexivity.
+        unfold aentry_bytes, amk. cbn [aobject_bytes fst snd aprefixed_bytes oh_g oh_v]. rewrite Hf, Hww. reflexivity.
     - destruct Hc as [Hz [dd [Hp Hn]]]. subst p. aunf. cbn [apayload_bytes] in Hb. split; [|reflexivity].
-      replace c with (N.of_nat (N.to_nat c)) at 2 4 by lia.
-      destruct (aiter_pbytes_spec ps v (N.to_nat c) (N.to_nat c) dd Hb) as [S1 S2]; try lia.
+      destruct (aiter_pbytes_spec' ps v c (N.to_nat c) dd Hb) as [S1 S2]; try lia.
       split.
       + rewrite map_length. exact S1.
       + rewrite map_map. etransitivity; [|exact S2]. f_equal.
